@@ -108,6 +108,17 @@ def handle (ws : List String) : String :=
       | some ops => " ; ".intercalate (showSteps { tree := t, rooted := r, stored := none } ops)
       | none => "bad-op"
     | _, _ => "bad-op"
+  -- maint <R|U|N> <col> <tree>: encode(suppress_unifurcations=False, collapse=col) with edge ids | after
+  --   suppress_unifurcations(update_bipartitions=True): tree | stored (id:leafset:split …) | split_bitmask_edge_map (split:id, sorted)
+  | "maint" :: r :: col :: rest =>
+    match parseRooted r, parseTree rest with
+    | some r, some (t, []) =>
+      let enc := encodeIds r false (col == "1") t
+      let res := suppressMaint (encodeTree r false (col == "1") t) enc
+      let showE := fun (l : List (Nat × Nat × Int)) => " ".intercalate (l.map (fun e => s!"{e.1}:{e.2.1}:{e.2.2}"))
+      let m := sortPairs ((edgeMap res.2).map (fun p => (p.2, p.1)))
+      showE enc ++ " | " ++ res.1.render ++ " | " ++ showE res.2 ++ " | " ++ " ".intercalate (m.map (fun p => s!"{p.2}:{p.1}"))
+    | _, _ => "bad-op"
   | "ucanon2" :: rest =>
     match parseTree rest with
     | some (t, []) => ucanon2 t
